@@ -579,6 +579,8 @@ theorem qok_modify {g : List Id} {s : St} (h : QOk g s) {c : Id} (d : Bool) {e :
 @[simp] theorem faults_releasePin (s : St) (p : Id) : (s.releasePin p).faults = s.faults := rfl
 @[simp] theorem faults_freeObstacle (s : St) (o : Id) : (s.freeObstacle o).faults = s.faults := rfl
 @[simp] theorem faults_freeConn (s : St) (c : Id) : (s.freeConn c).faults = s.faults := rfl
+@[simp] theorem faults_addCluster (s : St) (k : Id) : (s.addCluster k).faults = s.faults := rfl
+@[simp] theorem faults_freeCluster (s : St) (k : Id) : (s.freeCluster k).faults = s.faults := rfl
 @[simp] theorem faults_closeRouter (s : St) : s.closeRouter.faults = s.faults := rfl
 
 theorem fresh_ne {g : List Id} {s : St} (h : Core g s) {id o : Id} (hx : id ∉ s.created)
@@ -1012,6 +1014,10 @@ theorem faults_freeObsts (l : List Obst) (s : St) :
     (l.foldl (fun s o => s.freeObstacle o.id) s).faults = s.faults :=
   foldl_inv (fun t => t.faults = s.faults) (fun s o => s.freeObstacle o.id) (fun _ _ ht => ht) l s rfl
 
+theorem faults_freeClusters (l : List Cluster) (s : St) :
+    (l.foldl (fun s k => s.freeCluster k.id) s).faults = s.faults :=
+  foldl_inv (fun t => t.faults = s.faults) (fun s k => s.freeCluster k.id) (fun _ _ ht => ht) l s rfl
+
 theorem fok_deleteRouter {s : St} (h : FOk [] s) (hl : Legal s .deleteRouter = true) :
     FOk [] (step s .deleteRouter) := by
   obtain ⟨hq, hnf⟩ := h
@@ -1025,7 +1031,7 @@ theorem fok_deleteRouter {s : St} (h : FOk [] s) (hl : Legal s .deleteRouter = t
   refine ⟨qok_nil hcore hact, ?_⟩
   unfold step
   rw [if_neg (by simp [(legal_deleteRouter hl).1])]
-  simp only [faults_closeRouter, faults_freeObsts, faults_freeConns]
+  simp only [faults_closeRouter, faults_freeClusters, faults_freeObsts, faults_freeConns]
   exact hnf
 
 theorem fok_rDelJunction {s : St} (h : FOk [] s) {id : Id} (hj : s.hasJunction id = true)
@@ -1053,6 +1059,44 @@ theorem fok_rNewConn {s : St} (h : FOk [] s) {id : Id} (hx : id ∉ s.created) :
   obtain ⟨hq, hnf⟩ := h
   exact ⟨qok_sub hq (core_addConn hq.core _ hx) (nd_addConn hq.nd _ _) (List.Sublist.refl _), hnf⟩
 
+/-- cluster construction / destruction touches neither the queue nor obstacles, connectors, pins -/
+theorem fok_addCluster {s : St} (h : FOk [] s) {id : Id} (hx : id ∉ s.created) : FOk [] (s.addCluster id) := by
+  obtain ⟨hq, hnf⟩ := h
+  exact ⟨qok_sub hq (core_addCluster hq.core hx) (nd_clusters hq.nd rfl rfl rfl) (List.Sublist.refl _), hnf⟩
+
+theorem fok_freeCluster {s : St} (h : FOk [] s) {id : Id} (hk : s.hasCluster id = true) :
+    FOk [] (s.freeCluster id) := by
+  obtain ⟨hq, hnf⟩ := h
+  exact ⟨qok_sub hq (core_freeCluster hq.core (hasCluster_kids hk)) (nd_clusters hq.nd rfl rfl rfl)
+    (List.Sublist.refl _), hnf⟩
+
+/-- `Router::modifyConnector(conn)`: a bare ConnChange conflicts with nothing -/
+theorem qok_touch {g : List Id} {s : St} (h : QOk g s) {c : Id} (hc : s.hasConn c = true) :
+    QOk g (s.enqueue .connChange c) := by
+  refine ⟨core_enqueue h.core _ _, nd_touch h.nd hc, ?_, ?_⟩
+  · unfold St.enqueue; split
+    · exact h.pw
+    · show (s.actions ++ [_]).Pairwise RS
+      rw [List.pairwise_append]
+      refine ⟨h.pw, List.pairwise_singleton _ _, ?_⟩
+      intro a _ b hb
+      rw [List.mem_singleton] at hb; subst hb
+      intro _ _ h3; simp [isObstT, isRemove, isMove, isAdd] at h3
+  · unfold St.enqueue; split
+    · exact h.qc
+    · show QC (s.actions ++ [_])
+      intro a ha u hu an han b hb hbr
+      rw [List.mem_append, List.mem_singleton] at ha hb
+      rcases ha with ha | rfl
+      · rcases hb with hb | rfl
+        · exact h.qc a ha u hu an han b hb hbr
+        · simp [isRemove] at hbr
+      · cases hu
+
+theorem fok_touch {s : St} (h : FOk [] s) {c : Id} (hc : s.hasConn c = true) :
+    FOk [] (s.enqueue .connChange c).maybeProcess := by
+  obtain ⟨hq, hnf⟩ := h
+  exact finish (qok_touch hq hc) (by simpa using hnf)
 
 theorem fok_init : FOk [] init :=
   ⟨qok_nil core_init rfl, rfl⟩
@@ -1152,6 +1196,53 @@ theorem fok_step {s : St} (h : FOk [] s) (op : Op) (hl : Legal s op = true) : FO
     simp only [Legal, LegalDoc, Bool.and_eq_true, Bool.and_true] at hl
     unfold step; rw [if_neg (by simp [hal])]
     exact fok_rNewConn h (fresh_of_contains hl.2.1)
+  | newCluster id =>
+    simp only [Legal, LegalDoc, Bool.and_eq_true, Bool.and_true] at hl
+    unfold step; rw [if_neg (by simp [hal])]
+    exact fok_addCluster h (fresh_of_contains hl.2)
+  | deleteCluster id =>
+    simp only [Legal, LegalDoc, Bool.and_eq_true, Bool.and_true] at hl
+    unfold step; rw [if_neg (by simp [hal])]
+    dsimp only
+    rw [if_neg (by simp [hl.2])]
+    exact fok_freeCluster h hl.2
+  | setClusterPoly id =>
+    simp only [Legal, LegalDoc, Bool.and_eq_true, Bool.and_true] at hl
+    unfold step; rw [if_neg (by simp [hal])]
+    dsimp only
+    rw [if_neg (by simp [hl.2])]
+    exact h
+  | touchConn c =>
+    simp only [Legal, LegalDoc, Bool.and_eq_true, Bool.and_true] at hl
+    unfold step; rw [if_neg (by simp [hal])]
+    dsimp only
+    rw [if_neg (by simp [hl.2])]
+    exact fok_touch h hl.2
+  | touchPin pin =>
+    simp only [Legal, LegalDoc, Bool.and_eq_true, Bool.and_true, List.any_eq_true] at hl
+    obtain ⟨_, p, hp, hpid, _⟩ := hl
+    have hpin : s.hasPin pin = true := by
+      simp only [St.hasPin, List.any_eq_true]; exact ⟨p, hp, hpid.1⟩
+    unfold step; rw [if_neg (by simp [hal])]
+    dsimp only
+    rw [if_neg (by simp [hpin])]
+    obtain ⟨hq, hnf⟩ := h
+    exact finish (qok_enqueue_pin hq pin) (by simpa using hnf)
+  | apiRouter =>
+    unfold step; rw [if_neg (by simp [hal])]
+    exact h
+  | apiConn c =>
+    simp only [Legal, LegalDoc, Bool.and_eq_true, Bool.and_true] at hl
+    unfold step; rw [if_neg (by simp [hal])]
+    dsimp only
+    rw [if_neg (by simp [hl.2])]
+    exact h
+  | apiObst o =>
+    simp only [Legal, LegalDoc, Bool.and_eq_true, Bool.and_true] at hl
+    unfold step; rw [if_neg (by simp [hal])]
+    dsimp only
+    rw [if_neg (by simp [hl.2.1])]
+    exact h
 
 theorem fok_run_from {s : St} (h : FOk [] s) (ops : List Op) (hl : legalFrom Legal s ops = true) :
     FOk [] (ops.foldl step s) := by
